@@ -151,6 +151,24 @@ func byteFamilyDeep() []*Type {
 	}
 }
 
+// nestedStringStruct: struct{A struct{A string}} (exported, local): a struct
+// nested BY VALUE whose text (GoString) or leaves are handled by the outer
+// struct's template; part of the fixed core.
+func nestedStringStruct(t *Type) bool {
+	one := func(t *Type) *Type {
+		if t.K == "struct" && t.Meth == "" && t.Pkg == "local" && len(t.Fields) == 1 && exported(t.Fields[0].Name) && !t.Fields[0].Emb {
+			return t.Fields[0].T
+		}
+		return nil
+	}
+	if in := one(t); in != nil {
+		if leaf := one(in); leaf != nil {
+			return leaf.K == "basic" && leaf.B == "string"
+		}
+	}
+	return false
+}
+
 // SelectUniverse: quick = the fixed core (every term of depth <= 1: every
 // constructor over every leaf; every depth-2 term over the byte leaf) +
 // nQuick seed-chosen depth-2 terms + a few depth-3; thorough = all of
@@ -159,7 +177,7 @@ func SelectUniverse(all []*Type, quick bool, seed int64, nQuick, nDeep int) *Uni
 	u := &Universe{}
 	var core, rest []*Type
 	for _, t := range all {
-		if t.Depth() <= 1 || onlyByteLeaves(t) {
+		if t.Depth() <= 1 || onlyByteLeaves(t) || nestedStringStruct(t) {
 			core = append(core, t)
 		} else {
 			rest = append(rest, t)
